@@ -6,3 +6,4 @@ import IrisVerif.Model.QMat
 import IrisVerif.Props.C05
 import IrisVerif.Props.C02
 import IrisVerif.Props.C07
+import IrisVerif.Props.C17
